@@ -15,9 +15,11 @@ Seed == IF "VERIF_SEED" \in DOMAIN IOEnv THEN atoi(IOEnv.VERIF_SEED) ELSE 1
 (* ---- values per option ---- *)
 C(s) == s                                                   \* readability: a value is a sequence of atoms
 ValuesOf(o) ==
-    CASE o = "--query" -> {<<"a">>, <<"a", " ", "x">>, <<>>}
+    CASE o = "--query" -> {<<"a">>, <<"a", " ", "x">>, <<>>,
+                          <<"a", "=", "x">>, <<"$a">>}     \* text that matters to the layers around the value: the
+                                                                      \* --opt=value split, the word splitter of env / file
       [] o = "--filter" -> {<<"x">>}
-      [] o = "--prompt" -> {<<"x", ">">>, <<>>}
+      [] o = "--prompt" -> {<<"x", ">">>, <<>>, <<"x", "=", "=">>, <<"$", "HOME", " ">>}
       [] o = "--delimiter" -> {<<":">>, <<"a", "x">>, <<"[", ":", ",", "]">>}
       [] o = "--tiebreak" -> {<<"index">>, <<"length", ",", "index">>, <<"begin">>, <<"end", ",", "length">>,
                               <<"index", ",", "length">>, <<"length", ",", "length">>, <<"bogus">>,
